@@ -85,7 +85,7 @@ def _algsig():
 
 
 def one_trace(rng, case, bname, parameter=True, observed=False, via_copy=False, per_obs=True, fail_first=False,
-              stale_before=False, stale_bij=False):
+              stale_before=False, stale_bij=False, transform_bij_arg=False):
     """via_copy: the assignments are made on a deep copy of the built model (what the Goose interface and
     build_model(copy=True) work on); per_obs: the flag of the original distribution node."""
     dist_cls, pspec, x0 = CASES[case]
@@ -128,6 +128,9 @@ def one_trace(rng, case, bname, parameter=True, observed=False, via_copy=False, 
         bvar = lsl.Var(lsl.Calc(lambda r: 2.0 * r, broot), name="bv")
         broot.value = jnp.float32(1.7)
         bval = float(np.float32(3.4))
+    elif transform_bij_arg:
+        # the variable given as bijector argument has a distribution of its own and is itself transformed afterwards
+        bvar = lsl.Var(jnp.float32(2.0), lsl.Dist(tfd.Exponential, rate=1.0), name="bv")
     else:
         bvar = lsl.Var(jnp.float32(2.0), name="bv")
     pv_for_bij = {"__bv": bvar}
@@ -189,7 +192,8 @@ def one_trace(rng, case, bname, parameter=True, observed=False, via_copy=False, 
                             "observed": bool(x.observed)}}
         return {"hdr": hdr, "ev": ev + [e]}
     if model is None:
-        model = gb.add(xx, tv, bvar).build_model()
+        extra = [bvar.transform(tfb.Exp())] if transform_bij_arg else []
+        model = gb.add(xx, tv, bvar, *extra).build_model()
     copy_ok = True
     if via_copy:
         import copy
@@ -207,7 +211,11 @@ def one_trace(rng, case, bname, parameter=True, observed=False, via_copy=False, 
     b = bij_now(pvals, bval)
     t0 = b.inverse(jnp.asarray(x0, jnp.float32))
     e.update({"names": ["x", "x_transformed"], "flags": flags(), "orig_value": fl(xx.value), "new_value": fl(tv.value),
-              "copy_ok": copy_ok, "model_log_prob": fsum(model.log_prob), "model_log_prior": fsum(model.log_prior),
+              # (a second distributed variable - the transformed bijector argument - is taken out of the model's totals)
+              "copy_ok": copy_ok,
+              "model_log_prob": fsum(model.log_prob - (model.vars["bv_transformed"].log_prob if transform_bij_arg else 0.0)),
+              "model_log_prior": fsum(model.log_prior - (model.vars["bv_transformed"].log_prob
+                                                         if transform_bij_arg and model.vars["bv_transformed"].parameter else 0.0)),
               "new_log_prob": fsum(tv.log_prob), "new_per_obs": bool(tv.dist_node.per_obs),
               "new_lp_scalar": bool(np.ndim(tv.log_prob) == 0),
               "leaves": {"x": fl(x0), "t": fl(t0), "logp_b_t": fsum(orig_dist(pvals).log_prob(b.forward(t0))),
@@ -218,7 +226,10 @@ def one_trace(rng, case, bname, parameter=True, observed=False, via_copy=False, 
             # change a parameter variable of the distribution / of the bijector
             if bname == "scale_class_var" and (not pvars or rng.random() < 0.5):
                 bval = float(np.float32(rng.uniform(0.5, 4.0)))
-                if stale_bij:
+                if transform_bij_arg:
+                    model.vars["bv_transformed"].value = jnp.float32(np.log(bval))
+                    bval = float(np.exp(np.float32(np.log(bval))))
+                elif stale_bij:
                     model.vars["bv_root"].value = jnp.float32(bval / 2.0)
                 else:
                     model.vars["bv"].value = jnp.float32(bval)
@@ -395,6 +406,8 @@ def all_traces(rng, reps=1):
         out.append(one_trace(rng, case, bname, stale_before=True))
     # ... and the same for a calculated argument of the bijector
     out.append(one_trace(rng, "normal_vec", "scale_class_var", stale_bij=True))
+    # ... and for a bijector argument that is a distributed variable, transformed itself after it was used as argument
+    out.append(one_trace(rng, "normal_vec", "scale_class_var", transform_bij_arg=True))
     # a failing first call (raises after the early checks), then the proper one
     for case, bname in (("exponential", "exp_instance"), ("gamma_varparam", "default"), ("halfnormal", "auto"),
                         ("invgamma", "gb_default"), ("exponential", "softplus_class_hinge")):
